@@ -220,6 +220,13 @@ func (a *Agent) Status() *model.Status {
 		// Match the status to the execution graph.
 		schedulerStatus = scheduler.StatusRunning
 	}
+	if schedulerStatus == scheduler.StatusSuccess &&
+		a.graph.IsStarted() && !a.graph.IsFinished() {
+		// Between two steps no node is running and nothing has failed yet:
+		// the scheduler calls that "success". The run is not over before
+		// Schedule has returned; a status recorded now must not claim it is.
+		schedulerStatus = scheduler.StatusRunning
+	}
 
 	// Create the status object to record the current status.
 	status := &model.Status{
